@@ -104,7 +104,8 @@ def entry_points():
     for st in body:
         if isinstance(st, ast.If) and not st.orelse and len(st.body) == 1 and isinstance(st.body[0], ast.Return) \
                 and ast.unparse(st.body[0].value) == "[]" and isinstance(st.test, ast.Call):
-            if [ast.unparse(a) for a in st.test.args] != ["file_path"] or st.test.keywords:
+            # the guard looks at the path as given, or at the path made relative to the project root
+            if [ast.unparse(a) for a in st.test.args] not in (["file_path"], ["self._path_inside_project(file_path)"]) or st.test.keywords:
                 raise Unsupported("lint_file: guard is not a predicate of file_path alone")
             fn = st.test.func
             guards.append(fn.attr if isinstance(fn, ast.Attribute) else ast.unparse(fn))
